@@ -229,7 +229,12 @@ impl GearSets {
 
         let header = DatHeader::read(&mut cursor).ok()?;
 
-        let mut buffer = vec![0; header.content_size as usize - 1];
+        // content_size counts the 0xFF terminator of the header; it cannot exceed what the file holds
+        let content_size = (header.content_size as usize).checked_sub(1)?;
+        if content_size > buffer.len() {
+            return None;
+        }
+        let mut buffer = vec![0; content_size];
         cursor.read_exact(&mut buffer).ok()?;
 
         let decoded = buffer.iter().map(|x| *x ^ GEARSET_KEY).collect::<Vec<_>>();
